@@ -7,7 +7,10 @@ Part 2: specs/Unload.tla (listener tables of the endpoint layers, task manager, 
         violated with each pinned deviation switched on (negative controls).
 Part 3 (binding T): every shipped overlay class with default settings, on the plain and on the TunnelEndpoint wiring,
         runs a scripted protocol; unload() is requested at chosen events / virtual times, then late datagrams of every
-        message id arrive and 2 h of virtual time pass. The event log is validated by TLC against UnloadTrace.tla."""
+        message id arrive and 2 h of virtual time pass. The event log is validated by TLC against UnloadTrace.tla.
+        Two scenario families put the overlay into a state with history before unload is requested: bootstrappers
+        whose initialize() is in flight / whose broadcast socket is open (unload at every event after bootstrap()),
+        and exit sockets whose delayed removal is already scheduled (unload inside remove_tunnel_delay)."""
 from __future__ import annotations
 
 import json
@@ -23,13 +26,19 @@ from ..tlc import MachineryError, parse_value, run_tlc, scratch_dir
 
 PID = "C11"
 WIRINGS = ("plain", "tunnel")
-ACTIVITY = {"Handler", "Send", "TaskStep", "CacheTimeout", "SockOpen", "SockIn"}
+ACTIVITY = {"Handler", "Send", "TaskStep", "CacheTimeout", "SockOpen", "SockIn", "BootOpen", "BootIn"}
 _RE_REJECT = re.compile(r'<<\s*"C11REJECT",\s*(\[.*?\])\s*>>', re.S)
 UNLOAD_CFGS = {"Unload_mc.cfg": None, "Unload_pinned_wrapper.cfg": "SilentAfterUnload",
-               "Unload_pinned_crypto.cfg": "SilentAfterUnload", "Unload_pinned_delay.cfg": "SilentAfterUnload"}
+               "Unload_pinned_crypto.cfg": "SilentAfterUnload", "Unload_pinned_delay.cfg": "SilentAfterUnload",
+               "Unload_ctl_detached.cfg": "SilentAfterUnload", "Unload_ctl_stacked.cfg": "SilentAfterUnload"}
+UNLOAD_CTL_NAMES = {"Unload_ctl_detached.cfg": "a bootstrapper initialisation that its task does not await",
+                    "Unload_ctl_stacked.cfg": "an unload that leaves exit sockets with a pending removal to that removal"}
 UNLOAD_ACTIONS = ("Handler", "Send", "Register", "TaskStep", "TaskEnd", "CacheAdd", "CacheTimeout", "CachePop",
-                  "SockOpen", "SockClose", "SockIn", "UnloadStart", "U_Tunnels", "U_Cache", "U_Listener", "U_Tasks",
-                  "U_Done")
+                  "SockOpen", "SockClose", "SockIn", "RemoveSched", "BootInit", "BootOpen", "BootEnd", "BootClose",
+                  "BootIn", "UnloadStart", "U_Tunnels", "U_Cache", "U_Listener", "U_Tasks", "U_Boot", "U_Done")
+EVENT_KINDS = {"Handler", "Send", "Register", "TaskStep", "TaskEnd", "CacheAdd", "CacheTimeout", "CachePop", "SockOpen",
+               "SockClose", "SockIn", "RmSched", "BootInit", "BootOpen", "BootEnd", "BootClose", "BootIn", "UnloadStart",
+               "U_Tunnels", "U_Cache", "U_Listener", "U_Tasks", "U_Boot", "UnloadDone"}
 
 
 # ---------------------------------------------------------------------------------------------------
@@ -39,6 +48,10 @@ def reason_of(ev, st):
     e = ev["e"]
     if e == "U_Tunnels":
         return "open-sockets-when-unload-returned"
+    if e == "U_Boot":
+        return "open-bootstrap-sockets-when-unload-returned"
+    if e == "TaskEnd" and any(p[1] == ev["a"] for p in st.get("held", ())):
+        return "initialisation-outlives-the-task-that-started-it"
     if e == "UnloadDone":
         if st["tasks"] or st["dying"]:
             return "live-tasks-when-unload-returned"
@@ -52,8 +65,14 @@ def reason_of(ev, st):
     return "%s-not-a-step-of-the-spec-in-phase-%s" % (e, st["phase"])
 
 
+LIGHT_JVM = ("-XX:TieredStopAtLevel=1", "-XX:ParallelGCThreads=2")   # many short runs side by side: less JIT / GC threads
+JVM = {"opts": ()}                                                   # set by run(): LIGHT_JVM in the quick tier
+
+
 def tlc(*a, **k):
     """run_tlc, once more if the JVM was killed from outside (busy machine)"""
+    if k.get("timeout", 0) < 1000:
+        k.setdefault("java_opts", JVM["opts"])
     for attempt in (1, 2, 3):
         try:
             return run_tlc(*a, **k)
@@ -108,7 +127,7 @@ def record(scen, wiring, ks, seed, keys):
     return [sc.run_once(scen, wiring, k, seed, keys) for k in ks]
 
 
-def trace_part(ctx, tier, rng, keys, pool):
+def trace_part(ctx, tier, rng, keys, pool, after_recording=None):
     from .. import c11_scen as sc
     per = 4 if tier == "quick" else 150
     deltas = (2, 8, 16) if tier == "quick" else (1, 2, 4, 8, 12, 16, 22, 30)
@@ -118,6 +137,7 @@ def trace_part(ctx, tier, rng, keys, pool):
     all_traces = []
     futures = []
     plan = []
+    t_start = time.monotonic()
     for scen in sc.SCENARIOS:
         for wiring in WIRINGS:
             ref = sc.run_once(scen, wiring, None, ctx.seed, keys)
@@ -126,11 +146,12 @@ def trace_part(ctx, tier, rng, keys, pool):
                 raise MachineryError("scenario %s/%s produced only %d events: script does not run" % (scen.name, wiring, n))
             ks = pick_ks(n, per, rng)
             # unload while an API coroutine of T (DHT store/find, store_peer, ...) is in flight
-            ks = sorted(set(ks) | {m + d for m in ref["marks"] for d in deltas if m + d <= n})
+            ks = sorted(set(ks) | {m + d for m in ref["marks"] for d in tuple(deltas) + tuple(scen.dense)
+                                   if 1 <= m + d <= n})
             ts = [round(rng.uniform(0.0, 30.0), 3) for _ in range(times)]
             # ... and at virtual times after such a call (a crawl that waits for slow / silent nodes spans seconds but
             # only a few events)
-            ts += sorted({round(mt + d, 3) for mt in ref["mark_times"] for d in tdeltas})
+            ts += sorted({round(mt + d, 3) for mt in ref["mark_times"] for d in tuple(tdeltas) + tuple(scen.dense_times)})
             traces = [ref] + record(scen, wiring, ks + ts, ctx.seed, keys)
             plan.append({"class": scen.name, "wiring": wiring, "script_events": n, "unload_points": len(traces),
                          "events": sum(len(t["events"]) for t in traces)})
@@ -144,6 +165,9 @@ def trace_part(ctx, tier, rng, keys, pool):
         flat = [t for b in batches for t in b]
         futures.append((flat, pool.submit(validate, flat, "batch")))
     ctx.note("trace_plan", plan)
+    t_rec = time.monotonic()
+    if after_recording is not None:
+        after_recording()
     nrej = 0
     groups = {}
     for bi, (flat, fut) in enumerate(futures):
@@ -178,19 +202,31 @@ def trace_part(ctx, tier, rng, keys, pool):
         lo = max(0, li - 6)
         ctxt = ["%d %s %s" % (i + 1, json.dumps(t["events"][i], sort_keys=True), t["notes"][i])
                 for i in range(lo, min(len(t["events"]), li + 2))]
+        done = [i for i, e in enumerate(t["events"]) if e["e"] == "UnloadDone"]
+        late = sorted({e["e"] for e in t["events"][done[0] + 1:] if e["e"] in ACTIVITY}) if done else []
         ctx.violation("trace:%s:%s:%s" % (reason, wiring, kind),
                       "%s: %d recorded run(s) of %s on the %s wiring are not behaviours of Unload.tla; e.g. %s with "
                       "unload requested at %s: event %d %s (%s) is not possible in spec state phase=%s tasks=%s dying=%s "
-                      "socks=%s" % (reason, g["n"], "/".join(sorted(g["classes"])), wiring, t["cls"], t["k"], li + 1,
-                                    ev["e"], t["notes"][li], st["phase"], sorted(st["tasks"]), sorted(st["dying"]),
-                                    sorted(st["socks"])),
+                      "socks=%s initialisations=%s bootstrap-socks=%s pending-removals=%s%s"
+                      % (reason, g["n"], "/".join(sorted(g["classes"])), wiring, t["cls"], t["k"], li + 1,
+                         ev["e"], t["notes"][li], st["phase"], sorted(st["tasks"]), sorted(st["dying"]),
+                         sorted(st["socks"]), sorted(st.get("initing", ())), sorted(st.get("bsocks", ())),
+                         sorted(st.get("rmPending", ())),
+                         ("; the same log goes on with %s after unload() returned" % "/".join(late)) if late else ""),
                       {"part": "trace", "cls": t["cls"], "wiring": wiring, "k": t["k"], "seed": t["seed"],
                        "event_index": li + 1, "event": ev, "log_around": ctxt, "spec_state": st})
+    ctx.note("trace_wall_s", {"recording": round(t_rec - t_start, 1),
+                              "waiting_for_tlc": round(time.monotonic() - t_rec, 1)})
     kinds = {e["e"] for t in all_traces for e in t["events"]}
-    missing = {"Handler", "Send", "Register", "TaskStep", "TaskEnd", "CacheAdd", "CacheTimeout", "CachePop", "SockOpen",
-               "SockClose", "SockIn", "UnloadStart", "U_Tunnels", "U_Cache", "U_Listener", "U_Tasks", "UnloadDone"} - kinds
+    missing = EVENT_KINDS - kinds
     if missing and not ctx.violations:
         raise MachineryError("recorded runs never produced the events %s: the scenarios are vacuous" % sorted(missing))
+    hist = history_cover(all_traces)
+    ctx.note("unload_with_history", hist)
+    lacking = [k for k, v in hist.items() if v == 0]
+    if lacking and not ctx.violations:
+        raise MachineryError("no recorded run requested unload in the situations %s: the history scenarios are vacuous"
+                             % lacking)
     ctx.note("traces", {"recorded": len(all_traces), "rejected": nrej, "event_kinds": sorted(kinds),
                         "events": sum(len(t["events"]) for t in all_traces)})
     if all_traces:
@@ -199,12 +235,96 @@ def trace_part(ctx, tier, rng, keys, pool):
     return all_traces
 
 
+def history_cover(traces):
+    """in how many recorded runs unload() was requested while ... (what the history scenarios are there for)"""
+    out = {"initialisation_in_flight": 0, "bootstrap_socket_open": 0, "exit_socket_removal_pending": 0,
+           "every_open_exit_socket_has_a_removal_pending": 0}
+    for t in traces:
+        jobs, bs, socks, pend = set(), set(), set(), set()
+        for e in t["events"]:
+            k, a = e["e"], e["a"]
+            if k == "BootInit":
+                jobs.add(a)
+            elif k == "BootEnd":
+                jobs.discard(a)
+            elif k == "BootOpen":
+                bs.add(a)
+            elif k == "BootClose":
+                bs.discard(a)
+            elif k == "SockOpen":
+                socks.add(a)
+            elif k == "SockClose":
+                socks.discard(a)
+                pend.discard(a)
+            elif k == "RmSched":
+                pend.add(a)
+            elif k == "UnloadStart":
+                out["initialisation_in_flight"] += bool(jobs)
+                out["bootstrap_socket_open"] += bool(bs)
+                out["exit_socket_removal_pending"] += bool(pend)
+                out["every_open_exit_socket_has_a_removal_pending"] += bool(socks) and socks <= pend
+                break
+    return out
+
+
 HAND_MADE = [{"e": "Register", "a": 1, "ok": True, "o": "ov"}, {"e": "Handler", "a": 246, "ok": True, "o": "ov"},
              {"e": "Send", "a": 0, "ok": True, "o": "ov"}, {"e": "CacheAdd", "a": 1, "ok": True, "o": "ov"},
              {"e": "UnloadStart", "a": 0, "ok": True, "o": "ov"}, {"e": "U_Cache", "a": 0, "ok": True, "o": "ov"},
              {"e": "U_Listener", "a": 0, "ok": True, "o": "ov"}, {"e": "U_Tasks", "a": 0, "ok": True, "o": "ov"},
              {"e": "TaskStep", "a": 1, "ok": True, "o": "ov"}, {"e": "TaskEnd", "a": 1, "ok": True, "o": "ov"},
+             {"e": "U_Boot", "a": 0, "ok": True, "o": "ov", "s": []},
              {"e": "UnloadDone", "a": 0, "ok": True, "o": "ov"}, {"e": "Register", "a": 2, "ok": False, "o": "ov"}]
+
+
+def _ev(e, a=0, **extra):
+    return dict({"e": e, "a": a, "ok": True, "o": "ov"}, **extra)
+
+
+# a tunnel overlay with a bootstrapper: bootstrap(), the socket opens, a beacon arrives, an exit socket opens, its removal
+# is scheduled, unload
+HAND_HISTORY = [_ev("Register", 1), _ev("TaskStep", 1), _ev("BootInit", 1, t=1), _ev("BootOpen", 1, t=1), _ev("Send", 2),
+                _ev("BootEnd", 1), _ev("TaskStep", 1), _ev("TaskEnd", 1), _ev("BootIn", 1), _ev("Send"),
+                _ev("Handler", 1), _ev("SockOpen", 1), _ev("SockIn", 1), _ev("RmSched", 1),
+                _ev("UnloadStart"), _ev("U_Cache"), _ev("U_Listener"), _ev("RmSched", 1), _ev("SockClose", 1),
+                _ev("BootClose", 1), _ev("U_Tasks"), _ev("U_Boot", s=[]), _ev("U_Tunnels", s=[]), _ev("UnloadDone")]
+
+
+def _history_variants(evs):
+    """corruptions of a log with bootstrap / pending-removal history (hand-made or recorded), each to be rejected"""
+    def drop_last(names, seq):
+        last = {max(i for i, x in enumerate(seq) if x["e"] == n) for n in names if any(x["e"] == n for x in seq)}
+        return [x for i, x in enumerate(seq) if i not in last]
+
+    def with_s(seq, name, s):
+        return [dict(x, s=s) if x["e"] == name else x for x in seq]
+    done = max(i for i, x in enumerate(evs) if x["e"] == "UnloadDone")
+    out = {}
+    closes = [x["a"] for x in evs if x["e"] == "SockClose"]
+    if closes:
+        out["exit socket whose removal was pending is still open when unload returns"] = \
+            with_s(drop_last(["SockClose"], evs), "U_Tunnels", [closes[-1]])
+    bcloses = [x["a"] for x in evs if x["e"] == "BootClose"]
+    if bcloses:
+        out["bootstrap socket is still open when unload returns"] = \
+            with_s(drop_last(["BootClose"], evs), "U_Boot", [bcloses[-1]])
+        out["datagram on a bootstrap socket is handled after unload"] = evs[:done + 1] + [_ev("BootIn", bcloses[-1])]
+    inits = [i for i, x in enumerate(evs) if x["e"] == "BootInit"]
+    if inits:
+        i = inits[0]
+        holder = evs[i]["t"]
+        # the task that called initialize() ends right away (initialisation left running in the background)
+        out["task ends while the initialisation it started is in flight"] = \
+            evs[:i + 1] + [_ev("TaskEnd", holder)] + [x for x in evs[i + 1:]
+                                                      if not (x["e"] in ("TaskStep", "TaskEnd") and x["a"] == holder)]
+        # the socket of that initialisation appears only after unload() returned
+        opens = [j for j, x in enumerate(evs) if x["e"] == "BootOpen" and x["t"] == evs[i]["a"]]
+        if opens:
+            sid = evs[opens[0]]["a"]
+            rest = [x for j, x in enumerate(evs[:done + 1])
+                    if not (x["e"] in ("BootOpen", "BootClose", "BootIn") and x["a"] == sid)
+                    and not (x["e"] == "BootEnd" and x["a"] == evs[i]["a"]) and not (x["e"] == "Send" and x["a"] == 2)]
+            out["bootstrap socket is opened after unload"] = rest + [dict(evs[opens[0]])]
+    return out
 
 
 def _variants(evs):
@@ -221,28 +341,45 @@ def _variants(evs):
 
 
 def trace_controls(ctx, traces):
-    """corrupted copies of accepted logs, each of which TLC must reject: of a hand-made well-formed log, and of the
-    recorded reference log of a class with a request cache when TLC accepts that log as it is"""
+    """corrupted copies of accepted logs, each of which TLC must reject: of hand-made well-formed logs, and of recorded
+    logs (reference log of a class with a request cache; logs of the history scenarios) when TLC accepts those as they
+    are"""
+    cases = []            # (group, description or None for the unchanged log, trace)
+
+    def group(label, meta, evs, variants):
+        cases.append((label, None, dict(meta, events=evs)))
+        for name, v in variants.items():
+            cases.append((label, name, dict(meta, events=v)))
+
     hand = {"wiring": "plain", "kind": "cache"}
-    batch = [dict(hand, events=HAND_MADE)] + [dict(hand, events=v) for v in _variants(HAND_MADE).values()]
-    names = list(_variants(HAND_MADE))
+    group("hand-made log", hand, HAND_MADE, _variants(HAND_MADE))
+    group("hand-made log with history", {"wiring": "plain", "kind": "tunnel"}, HAND_HISTORY,
+          _history_variants(HAND_HISTORY))
     base = [t for t in traces if t["kind"] == "cache" and t["k"] is None and t["wiring"] == "plain"
             and any(e["e"] == "TaskEnd" for e in t["events"])]
     if base:
-        real = {"wiring": "plain", "kind": "cache"}
-        batch += [dict(real, events=base[0]["events"])] + [dict(real, events=v)
-                                                           for v in _variants(base[0]["events"]).values()]
-    _r, rej = validate(batch, "ctl")
-    rejected = {ti for ti, _li, _st in rej}
-    if 0 in rejected:
-        raise MachineryError("the well-formed control log is rejected: %s" % (rej[0],))
-    n = len(names)
-    for i, name in enumerate(names, start=1):
-        ctx.control("hand-made log in which a " + name + " is rejected by TLC", i in rejected)
-    if base and (n + 1) not in rejected:
-        for i, name in enumerate(names, start=n + 2):
-            ctx.control("recorded %s log changed so that a %s is rejected by TLC" % (base[0]["cls"], name),
-                        i in rejected)
+        group("recorded %s log" % base[0]["cls"], {"wiring": "plain", "kind": "cache"}, base[0]["events"],
+              _variants(base[0]["events"]))
+    boot = [t for t in traces if t["k"] is None and t["wiring"] == "plain"
+            and any(e["e"] == "BootOpen" for e in t["events"])]
+    if boot:
+        group("recorded %s log" % boot[0]["cls"], {"wiring": "plain", "kind": boot[0]["kind"]}, boot[0]["events"],
+              _history_variants(boot[0]["events"]))
+    pend = [t for t in traces if t["wiring"] == "plain" and history_cover([t])["every_open_exit_socket_has_a_removal_pending"]]
+    if pend:
+        group("recorded %s log (unload at %s)" % (pend[0]["cls"], pend[0]["k"]), {"wiring": "plain", "kind": "tunnel"},
+              pend[0]["events"], _history_variants(pend[0]["events"]))
+    _r, rej = validate([c[2] for c in cases], "ctl")
+    rejected = {ti: (li, st) for ti, li, st in rej}
+    broken = set()
+    for i, (label, name, _t) in enumerate(cases):
+        if name is None and i in rejected:
+            if label.startswith("hand-made"):
+                raise MachineryError("the well-formed control log (%s) is rejected: %s" % (label, rejected[i],))
+            broken.add(label)         # a recorded log that is itself rejected (a violation reported elsewhere)
+    for i, (label, name, _t) in enumerate(cases):
+        if name is not None and label not in broken:
+            ctx.control("%s changed so that a %s is rejected by TLC" % (label, name), i in rejected)
 
 
 # ---------------------------------------------------------------------------------------------------
@@ -254,7 +391,9 @@ def run(tier, seed, replay=None):
     ctx.cov["rule"] = ("TaskManager.tla: every transition TLC enumerates (2 names, register/replace/cancel/finish/"
                        "shutdown/loop iteration) is executed on the real TaskManager and the projected registry, task "
                        "states and refusal counters compared; Unload.tla model checked for 2 wirings x 3 overlay kinds; "
-                       "recorded runs = 9 overlay classes x 2 endpoint wirings x unload requested at sampled (thorough: "
+                       "recorded runs = 9 overlay classes (+ an overlay with the shipped bootstrappers: unload at every "
+                       "event after bootstrap(); + an exit-only tunnel overlay: unload while the removal of its exit "
+                       "sockets is pending) x 2 endpoint wirings x unload requested at sampled (thorough: "
                        "dense) events and random virtual times, each followed by replayed captures, 256 forged message "
                        "ids, outside datagrams, late register_task/cache.add calls and 2 h virtual time; TLC validates "
                        "every event; non-trivial = distinct (class, wiring, unload point) logs and distinct graph walks")
@@ -262,7 +401,11 @@ def run(tier, seed, replay=None):
                         "sends are observed on the simulated wire and outside transports; an overlay that would open real "
                         "sockets by other means than loop.create_datagram_endpoint is not observed",
                         "only task steps of tasks registered with the overlay, its request cache or its exit sockets are "
-                        "attributed to the overlay"]
+                        "attributed to the overlay; of coroutines started outside the task manager only bootstrapper "
+                        "initialisations are followed",
+                        "the OS socket of UDPBroadcastBootstrapper is simulated (two loop iterations to open, as "
+                        "asyncio's create_datagram_endpoint needs)"]
+    JVM["opts"] = LIGHT_JVM if tier == "quick" else ()
     rng = random.Random(seed)
     # node keys derived from the seed: DHT distances, hence the order of events, depend on them
     krng = random.Random(seed * 7919 + 11)
@@ -271,19 +414,25 @@ def run(tier, seed, replay=None):
     if replay:
         return run_replay(ctx, replay, keys)
 
-    with ThreadPoolExecutor(max_workers=6) as pool:
-        # spec level: Unload.tla for the repaired behaviour and with each pinned deviation (negative controls)
-        mc = {cfg: pool.submit(tlc, "Unload.tla", cfg, workers=2) for cfg in UNLOAD_CFGS}
-        tm_pinned = pool.submit(tlc, "TaskManager.tla", "TaskManager_pinned.cfg", workers=2, coverage=False)
+    with ThreadPoolExecutor(max_workers=12) as pool:
+        # spec level: Unload.tla for the repaired behaviour and with each deviation (negative controls). The recording
+        # runs in this thread and is slowed down by every JVM next to it: only the long TaskManager graph runs are
+        # started before it, the short model checking runs when the recording is done.
+        mc = {}
+
+        def start_mc():
+            for cfg in UNLOAD_CFGS:
+                mc[cfg] = pool.submit(tlc, "Unload.tla", cfg, workers=2)
+            mc["tm_pinned"] = pool.submit(tlc, "TaskManager.tla", "TaskManager_pinned.cfg", workers=2, coverage=False)
         big = None
         if tier == "thorough":
             big = pool.submit(tlc, "TaskManager.tla", "TaskManager_o6t5.cfg", coverage=False, timeout=3000)
 
         t0 = time.monotonic()
         tm_cfg = "TaskManager_o4.cfg" if tier == "quick" else "TaskManager_o5.cfg"
-        tm_graph = pool.submit(c11_tm.load_graph, tm_cfg)
-        tm_ctl = pool.submit(c11_tm.load_graph, "TaskManager_o3.cfg")
-        traces = trace_part(ctx, tier, rng, keys, pool)
+        tm_graph = pool.submit(c11_tm.load_graph, tm_cfg, JVM["opts"])
+        tm_ctl = pool.submit(c11_tm.load_graph, "TaskManager_o3.cfg", JVM["opts"])
+        traces = trace_part(ctx, tier, rng, keys, pool, after_recording=start_mc)
         t1 = time.monotonic()
         trace_controls(ctx, traces)
         t2 = time.monotonic()
@@ -297,10 +446,12 @@ def run(tier, seed, replay=None):
                     if r.coverage.get(a, (0, 0))[1] == 0:
                         raise MachineryError("Unload.tla: action %s never taken (vacuous)" % a)
                 ctx.add_tlc("unload_mc", r)
+            elif cfg in UNLOAD_CTL_NAMES:
+                ctx.control("Unload.tla with %s violates %s" % (UNLOAD_CTL_NAMES[cfg], want), r.violated == want)
             else:
                 ctx.control("Unload.tla with the pinned deviation of %s violates %s" % (cfg[14:-4], want),
                             r.violated == want)
-        r = tm_pinned.result()
+        r = mc["tm_pinned"].result()
         ctx.control("TaskManager.tla with the pinned pop-by-name done callback violates RegistryComplete",
                     r.violated in ("RegistryComplete", "NoDuplicateActiveName", "NothingAfterShutdown"))
 
